@@ -495,8 +495,12 @@ func c07Long(c c07Case, st *fw.Stats) []fw.Viol {
 func c07Special(st *fw.Stats, add func(sig, msg string)) {
 	run := func(what string, defs []refmodel.RouteDef, opts func(bool) []func(*rux.Router), reqs [][3]string) {
 		recC, recT := &hitRec{}, &hitRec{}
-		rc, pv1 := buildRouter(defs, recC, opts(true)...)
-		rt, pv2 := buildRouter(defs, recT, opts(false)...)
+		via := make([]string, len(defs))
+		for i := range via {
+			via[i] = "AddNamed" // (route #i is named n<i>)
+		}
+		rc, pv1 := buildRouterVia(defs, via, recC, opts(true)...)
+		rt, pv2 := buildRouterVia(defs, via, recT, opts(false)...)
 		if pv1 != nil || pv2 != nil {
 			add("register:panic", fmt.Sprintf("%s: registration panicked: %v %v", what, pv1, pv2))
 			return
@@ -516,6 +520,13 @@ func c07Special(st *fw.Stats, add func(sig, msg string)) {
 		for i, q := range reqs {
 			st.Evals++
 			st.Nontrivial++
+			if q[0] == "BUILD-URL" {
+				// the application builds the URL of a named route (n<i> = route #i) on both routers; nothing is requested
+				for _, r := range []*rux.Router{rc, rt} {
+					_ = try(func() { r.BuildURL(q[1], strings.Split(q[2], "=")[0], strings.Split(q[2], "=")[1]) })
+				}
+				continue
+			}
 			if got, want := obs(rc, recC, q), obs(rt, recT, q); got != want {
 				shown := q[1]
 				if len(shown) > 40 {
@@ -561,6 +572,24 @@ func c07Special(st *fw.Stats, add func(sig, msg string)) {
 			return []func(*rux.Router){rux.CachingWithNum(8)}
 		}
 		return nil
+	}
+	// (d) methods outside the supported nine, right after the same path was cached for GET / for POST
+	odd := []refmodel.RouteDef{{Path: "/p/{x}", Methods: []string{"GET"}}, {Path: "/p/{x}", Methods: []string{"POST"}}, {Path: "/o/{x}", Methods: []string{"OPTIONS", "GET"}}}
+	for _, m := range []string{"PROPFIND", "get", "", "PURGE", "Get", "GETX", "post", "FOO", "options"} {
+		for _, o := range []func(bool) []func(*rux.Router){plainOpts, naOpts} {
+			run("routes GET /p/{x}, POST /p/{x}, OPTIONS+GET /o/{x}; a method outside the supported nine", odd, o, [][3]string{{"GET", "/p/1", ""}, {m, "/p/1", ""}, {"POST", "/p/1", ""}, {m, "/p/1", ""}, {"OPTIONS", "/o/1", ""}, {m, "/o/1", ""}, {"GET", "/o/1", ""}, {m, "/o/1", ""}})
+		}
+	}
+	// (e) the application builds URLs of named routes between the requests
+	named := []refmodel.RouteDef{{Path: `/users/{id:\d+}`, Methods: []string{"GET"}}, {Path: "/users/{name}", Methods: []string{"GET", "POST"}}, {Path: "/{any}/{thing}", Methods: []string{"GET"}}}
+	for _, seq := range [][][3]string{
+		{{"BUILD-URL", "n1", "{name}=42"}, {"GET", "/users/42", ""}, {"POST", "/users/42", ""}},
+		{{"BUILD-URL", "n2", "{any}=users"}, {"BUILD-URL", "n2", "{thing}=bob"}, {"GET", "/users/bob", ""}, {"GET", "/users/{thing}", ""}},
+		{{"GET", "/users/7", ""}, {"BUILD-URL", "n1", "{name}=7"}, {"GET", "/users/7", ""}, {"BUILD-URL", "n0", "{id}=7"}, {"POST", "/users/7", ""}, {"GET", "/users/7", ""}},
+	} {
+		for _, o := range []func(bool) []func(*rux.Router){plainOpts, naOpts} {
+			run("routes n0 = GET /users/{id:\\d+}, n1 = GET+POST /users/{name}, n2 = GET /{any}/{thing}; URLs built with BuildURL between the requests", named, o, seq)
+		}
 	}
 	for name, pair := range c07Collisions() {
 		a, b := "/p/"+pair[0], "/p/"+pair[1]
@@ -660,7 +689,7 @@ var c07Spec = fw.Spec[c07Case]{
 	Level:      "model_checking",
 	StateGraph: true,
 	Rule: "explicit-state search to fix-point per configuration (13 route tables x {HandleMethodNotAllowed} x {HandleFallbackRoute} x {StrictLastSlash} x capacities 0..3(4)): state = cache content in recency order with route and params per entry (verif hook); " +
-		"all histories of length <=2 (thorough 3) without state merging, then every reachable state x every request of the alphabet (13 / 16 requests: hits, misses, evictions, HEAD->GET, 405 probes, fallback, 404) executed on the real caching router via Match and ServeHTTP and compared with the non-caching twin; for capacity 2 also next to a sibling router built from the very same option values; for capacity 2 (thorough 1 and 3) the graph is explored again with the registration of the table's last route as one more action, enabled once at any point; plus plain / percent-encoded URL sequences under UseEncodedPath, matched and unmatched paths of 230..290 bytes with HandleMethodNotAllowed, pairs of cache keys that collide under six common 32-bit string hashes, and pairs of request paths of every length 10..309 bytes that differ only in their last 1-3 bytes, requested alternately under four methods; non-trivial = newly reached distinct cache state",
+		"all histories of length <=2 (thorough 3) without state merging, then every reachable state x every request of the alphabet (13 / 16 requests: hits, misses, evictions, HEAD->GET, 405 probes, fallback, 404) executed on the real caching router via Match and ServeHTTP and compared with the non-caching twin; for capacity 2 also next to a sibling router built from the very same option values; for capacity 2 (thorough 1 and 3) the graph is explored again with the registration of the table's last route as one more action, enabled once at any point; plus plain / percent-encoded URL sequences under UseEncodedPath, matched and unmatched paths of 230..290 bytes with HandleMethodNotAllowed, pairs of cache keys that collide under six common 32-bit string hashes, requests with 9 method strings outside the supported nine right after the path was cached for GET / POST / OPTIONS, URLs of named routes built with BuildURL between the requests, and pairs of request paths of every length 10..309 bytes that differ only in their last 1-3 bytes, requested alternately under four methods; non-trivial = newly reached distinct cache state",
 	Assume: []string{
 		"canonical state = cache content only: tables and options are frozen after registration and contexts are reset per request (C10)",
 		"successor = replay of the shortest history on a fresh router plus one request",
